@@ -35,6 +35,34 @@ def agg_path(rng, t):
     return path, t
 
 
+FPTR_TYS = ["p0(F(v;))", "p0(F(i32;i32,p0(i8)))", "p0(F(i64;))", "p0(F(p0(i8);V4(i32)))"]
+
+
+def fptr_sig(t):
+    """(return type, [parameter types]) of a pointer-to-function type descriptor, or None"""
+    m = re.fullmatch(r"p\d+\(F\((.*)\)\)", t)
+    if not m:
+        return None
+    inner = m.group(1)
+    depth = 0
+    for k, ch in enumerate(inner):
+        depth += ch == "("; depth -= ch == ")"
+        if ch == ";" and depth == 0:
+            ret, ps = inner[:k], inner[k + 1:]
+            break
+    else:
+        return None
+    params, cur, depth = [], "", 0
+    for ch in ps:
+        if ch == "," and depth == 0:
+            params.append(cur); cur = ""
+        else:
+            depth += ch == "("; depth -= ch == ")"; cur += ch
+    if cur:
+        params.append(cur)
+    return ret, params
+
+
 VEC_TYS = ["V4(i32)", "V2(i64)", "S2(i8)", "V4(f1)", "S2(f2)", "V2(p0(i8))"]
 
 
@@ -77,10 +105,36 @@ def const_for(rng, t):
     return "z"
 
 
-def gen_func(rng, max_blocks=4):
-    """returns (descriptor args: ret, name, params, blocks) as a 4-tuple of strings"""
+def gen_sig(rng):
+    """a function header: (name, [(param type, param name or None)], return type)"""
     name = safe_name(rng)
-    used_names = set()
+    used = set()
+    params = []
+    for _ in range(rng.randint(0, 3)):
+        nm = None
+        if rng.random() >= 0.45:
+            for _ in range(20):
+                n = safe_name(rng)
+                if n not in used:
+                    used.add(n); nm = n
+                    break
+        params.append((rng.choice(INT_TYS + PTR_TYS + (FPTR_TYS if rng.random() < 0.3 else [])), nm))
+    ret = rng.choice(["v", "i32", "i1", "p0(i8)", "V4(i32)", "i64"])
+    return name, params, ret
+
+
+def sig_ref_ty(sig):
+    """the type of a reference to a function with this header"""
+    return "p0(F(%s;%s))" % (sig[2], ",".join(t for t, _ in sig[1]))
+
+
+def gen_func(rng, max_blocks=4, sig=None, genv=()):
+    """returns (descriptor args: ret, name, params, blocks) as a 4-tuple of strings; genv: the globals of the module, [(hex name, type of a reference)]"""
+    name, params, ret = sig if sig is not None else gen_sig(rng)
+    if sig is None:
+        # a function definition on its own may refer to itself
+        genv = [(hexs(name), sig_ref_ty((name, params, ret)))]
+    used_names = set(nm for _, nm in params if nm is not None)
     def fresh_ident():
         # a name or `None` (unnamed: numbered later)
         if rng.random() < 0.45:
@@ -91,8 +145,6 @@ def gen_func(rng, max_blocks=4):
                 used_names.add(n)
                 return n
         return None
-    params = [(rng.choice(INT_TYS + PTR_TYS), fresh_ident()) for _ in range(rng.randint(0, 3))]
-    ret = rng.choice(["v", "i32", "i1", "p0(i8)", "V4(i32)", "i64"])
     nb = rng.randint(1, max_blocks)
     blocks = []
     for _ in range(nb):
@@ -147,6 +199,20 @@ def gen_func(rng, max_blocks=4):
                 e = rng.choice(AGG_TYS + ["i32", "a4(a2(i16))"])
                 path, et = agg_path(rng, e) if not e.startswith("i") and rng.random() < 0.8 else ([], e)
                 insts.append({"row": 73, "ty": e, "as": rng.choice([0, 0, 1, 3]), "path": path, "ety": et, "res": fresh_ident(), "has": True})
+        # calls (rows 74 / 75) of a function of the module or through a parameter of function-pointer type
+        callable_tys = [ty for _, ty in genv if fptr_sig(ty)] + [t for t, _ in params if fptr_sig(t)]
+        for _ in range(rng.choice([0, 0, 1, 2]) if callable_tys else 0):
+            ct = rng.choice(callable_tys)
+            rt = fptr_sig(ct)[0]
+            if rt == "v":
+                insts.append({"row": 74, "ty": ct, "res": None, "has": False})
+            else:
+                insts.append({"row": 75, "ty": ct, "res": fresh_ident(), "has": True})
+        # conversions of a reference to a function or a global variable of the module (whatever its type is)
+        for a, ty in genv:
+            if rng.random() < 0.15:
+                insts.append({"row": rng.choice([39, 41]), "ty": ty, "to": None, "res": fresh_ident(), "has": True})
+                insts[-1]["to"] = "i64" if insts[-1]["row"] == 39 else "p0(i8)"
         rng.shuffle(insts)
         blocks.append({"label": fresh_ident(), "insts": insts})
     # result types
@@ -156,6 +222,8 @@ def gen_func(rng, max_blocks=4):
         if r < 23:
             m = re.fullmatch(r"([VS])(\d+)\((.*)\)", t)
             return "%s%s(i1)" % (m.group(1), m.group(2)) if m else "i1"
+        if 30 <= r <= 42: return i["to"]
+        if r == 75: return fptr_sig(t)[0]
         if r == 23: return pointee(t)
         if r == 25 or r in (43, 44): return t
         if 30 <= r <= 42: return i["to"]
@@ -198,16 +266,26 @@ def gen_func(rng, max_blocks=4):
             else:
                 i["ident"] = "_"
     def operand(t, nolazy=False):
+        g = [a for a, ty in genv if ty == t]
+        if g and rng.random() < 0.5:
+            return "@" + rng.choice(g)
         c = [a for a, ty in avail if ty == t and not (nolazy and a in lazy)]
         if c and rng.random() < 0.6:
             return "%" + rng.choice(c)
         return "#" + const_for(rng, t)
+    def ref_operand(t):
+        """a local or global of exactly this type (never a constant)"""
+        c = ["@" + a for a, ty in genv if ty == t] + ["%" + a for a, ty in avail if ty == t and a not in lazy]
+        return rng.choice(c)
     bdesc = []
     for b in blocks:
         parts = [b["ident"]]
         for i in b["insts"]:
             r, t = i["row"], i["ty"]
-            if r < 23:
+            if r in (74, 75):
+                rt, pts = fptr_sig(t)
+                args = ("T%s!" % rt if r == 75 else "") + "V%s!G%s" % (ref_operand(t), "&".join("%s=%s" % (pt, operand(pt)) for pt in pts))
+            elif r < 23:
                 args = "P%s=%s!V%s" % (t, operand(t), operand(t))
             elif r == 23:
                 args = "T%s!P%s=%s!A%s" % (pointee(t), t, operand(t), rng.choice(ALIGNS))
@@ -293,6 +371,10 @@ def mutants(rng, text):
         out.append(("undefined-use", with_line(k, lines[k][:m.start()] + b"%undefined.x" + lines[k][m.end():])))
         k, m = rng.choice(uses)
         out.append(("quoted-use", with_line(k, lines[k][:m.start()] + b'%"' + m.group(0)[1:].strip(b'"') + b'"' + lines[k][m.end():])))
+    if uses:
+        # a function definition on its own defines no global: any `@name` operand is undefined (the global environment of M-Whole is empty here)
+        k, m = rng.choice(uses)
+        out.append(("global-operand", with_line(k, lines[k][:m.start()] + b"@" + m.group(0)[1:] + lines[k][m.end():])))
     if len(defs) >= 2:
         (k1, m1), (k2, m2) = rng.sample(defs, 2)
         out.append(("duplicate-def", with_line(k2, b"\t" + m1.group(1) + lines[k2][m2.end(1) + 1:])))
